@@ -1316,7 +1316,28 @@ class PathLossMetisPS7(PathLossIndoorBase):
 
     def which_distance_dB(
             self, PL: NumberOrArray) -> NumberOrArray:  # pragma: nocover
-        pass
+        """
+        Calculates the distance that yields the given path loss (in dB).
+
+        The inverse query is not available for the METIS PS7 model (the
+        loss also depends on the number of walls).
+
+        Parameters
+        ----------
+        PL : float | np.ndarray
+            Path loss (in dB).
+
+        Returns
+        -------
+        d : float | np.ndarray
+            Distance (in meters).
+
+        Raises
+        ------
+        NotImplementedError
+        """
+        raise NotImplementedError("which_distance_dB is not available for "
+                                  "this path loss model")
 
     def _calc_deterministic_path_loss_dB(  # type: ignore
             self,
